@@ -2,6 +2,7 @@ package main
 
 import (
 	"fmt"
+	"strconv"
 	"strings"
 	"time"
 
@@ -20,8 +21,13 @@ import (
 //   X:host:path                       jar.Get(uri), then release every returned cookie (the documentation allows it)
 //   L                                 jar.Release()
 //   W                                 wait (real time) until every `s` cookie has expired
+//   T:k                               wait (real time) until the middle of tick k of the case (k decimal, increasing);
+//                                     a tick is tickLen long, counted from the start of the case
 // Expiry is injected directly: p = one hour ago, f = in one hour, n = none (session cookie),
-// s = shortLife after the start of the case (S ops only; Set-Cookie has a granularity of seconds).
+// s = shortLife after the start of the case (S ops only; Set-Cookie has a granularity of seconds),
+// t1 … t9 = at the boundary between tick k-1 and tick k (S ops only). The jar reads time.Now(): a ticked case never
+// runs an operation within tickMargin of a boundary (else it is run again), so which cookies have expired at each
+// operation is fixed by the op list alone, without a settable clock and with waits of a few milliseconds.
 
 type jarOp struct {
 	kind  byte
@@ -64,7 +70,7 @@ func parseJarOps(s string) (ops []jarOp, ok bool) {
 			return nil, false
 		}
 		op := jarOp{kind: ps[0][0], parts: ps[1:]}
-		want := map[byte]int{'S': 5, 'K': 3, 'R': 3, 'G': 2, 'X': 2, 'L': 0, 'W': 0}
+		want := map[byte]int{'S': 5, 'K': 3, 'R': 3, 'G': 2, 'X': 2, 'L': 0, 'W': 0, 'T': 1}
 		n, known := want[op.kind]
 		if !known || len(op.parts) != n {
 			return nil, false
@@ -73,7 +79,11 @@ func parseJarOps(s string) (ops []jarOp, ok bool) {
 		for i, p := range op.parts {
 			switch {
 			case op.kind == 'S' && i == 4:
-				if p != "n" && p != "p" && p != "f" && p != "s" {
+				if p != "n" && p != "p" && p != "f" && p != "s" && tickOf(p) == 0 {
+					return nil, false
+				}
+			case op.kind == 'T':
+				if k, err := strconv.Atoi(p); err != nil || k < 1 || k > maxTick || strconv.Itoa(k) != p {
 					return nil, false
 				}
 			case op.kind == 'R' && i == 2:
@@ -111,6 +121,10 @@ func mkCookie(name, value, path, exp string, now time.Time) *fasthttp.Cookie {
 		c.SetExpire(now.Add(time.Hour))
 	case "s":
 		c.SetExpire(now.Add(shortLife))
+	default:
+		if k := tickOf(exp); k > 0 {
+			c.SetExpire(now.Add(time.Duration(k) * tickLen))
+		}
 	}
 	return c
 }
@@ -132,14 +146,25 @@ var respCookies []*fasthttp.Cookie
 // cookieHeaderSeen is the Cookie header of the last request the server handled.
 var cookieHeaderSeen string
 
+// tickOf: "t3" -> 3; 0 = not a tick expiry
+func tickOf(exp string) int {
+	if len(exp) == 2 && exp[0] == 't' && exp[1] >= '1' && exp[1] <= '9' {
+		return int(exp[1] - '0')
+	}
+	return 0
+}
+
 const (
+	tickLen    = 4 * time.Millisecond // ticked cases: length of a tick
+	tickMargin = 1 * time.Millisecond // no operation of a ticked case within this distance of a tick boundary
+	maxTick    = 12
 	shortLife = 300 * time.Millisecond // life of an `s` cookie, counted from the start of the case
 	shortSafe = 200 * time.Millisecond // everything before the first W must be over by then
 )
 
 // runJar runs a case; a case with a W that was too slow to reach it in time (machine under load) is run again.
 func runJar(ops []jarOp) string {
-	for try := 0; try < 5; try++ {
+	for try := 0; try < 8; try++ {
 		if obs, ok := runJarOnce(ops); ok {
 			return obs
 		}
@@ -150,6 +175,12 @@ func runJar(ops []jarOp) string {
 func runJarOnce(ops []jarOp) (string, bool) {
 	now := time.Now()
 	waited := false
+	ticked, tick := false, 0
+	for _, op := range ops {
+		if op.kind == 'T' {
+			ticked = true
+		}
+	}
 	jar := &client.CookieJar{}
 	cl := client.New().SetDial(dialer).SetCookieJar(jar)
 	var obs []string
@@ -161,7 +192,7 @@ func runJarOnce(ops []jarOp) (string, bool) {
 	for _, op := range ops {
 		p := make([]string, len(op.parts))
 		for i, x := range op.parts {
-			if (op.kind == 'S' && i == 4) || (op.kind == 'R' && i == 2) {
+			if (op.kind == 'S' && i == 4) || (op.kind == 'R' && i == 2) || op.kind == 'T' {
 				p[i] = x
 			} else {
 				p[i] = un(x)
@@ -189,6 +220,16 @@ func runJarOnce(ops []jarOp) (string, bool) {
 		case 'L':
 			jar.Release()
 			obs = append(obs, "l")
+		case 'T':
+			k, _ := strconv.Atoi(p[0])
+			if k > tick {
+				if time.Since(now) > time.Duration(k)*tickLen+tickLen/2 {
+					return "", false // already past the middle of that tick
+				}
+				time.Sleep(time.Until(now.Add(time.Duration(k)*tickLen + tickLen/2)))
+				tick = k
+			}
+			obs = append(obs, "t")
 		case 'W':
 			if !waited {
 				if time.Since(now) > shortSafe {
@@ -225,6 +266,12 @@ func runJarOnce(ops []jarOp) (string, bool) {
 				fasthttp.ReleaseCookie(c)
 			}
 			respCookies = respCookies[:0]
+		}
+		if ticked {
+			// the operation must lie inside its tick, away from both boundaries
+			if el := time.Since(now); el > time.Duration(tick+1)*tickLen-tickMargin || (tick > 0 && el < time.Duration(tick)*tickLen+tickMargin) {
+				return "", false
+			}
 		}
 	}
 	if len(obs) == 0 {
